@@ -31,4 +31,38 @@ PROPS = {
             "forged check blocks (kind byte downgraded to 'none' or hash replaced by the hash of the altered content, with the CRC recomputed) are deliberate re-checksumming, outside the property",
         ],
     },
+    "C01": {
+        "theorems": "JubakoModel.Theorems.C01",
+        "harness": "c01",
+        "sig_exclude": "^c16-",
+        "profiles": ["debug"],
+        "rule": "one case = one content pack built from a seeded insertion sequence (kinds: empty pack, 4095-blob split, 4 MiB compressed-cluster split, data sizes at the 1/2/3-byte offset-width boundaries, incompressible data forced into compressed clusters, mixed sizes 0..200 KB with duplicates) x compression {none, lz4 l, lzma l, zstd l} x hints {yes,no,detect} x sources {memory, file, file sub-range} x dedup adder on/off x packaging {bare creator, BasicCreator one/two/no-concat}; every address is read back through the public reader, the pack is decoded by the Lean decoder and re-encoded by the Lean creator model byte for byte; non-trivial = at least one content; distinct = distinct (config, contents) fingerprint",
+        "assumptions": [
+            "codecs are a parameter of the theorems (hypothesis: decompress (compress d) = d); in the correspondence the harness decompresses cluster payloads with the lz4/xz2/zstd crates called directly (not through jubako) and hands the plain data to the Lean decoder",
+            "the compression decision of hint Detect (f32 entropy) is read out of the produced file; the theorems quantify over it",
+            "uuid, compressed payload bytes and cluster arrival order are read out of the produced file and fed to the Lean writer model",
+            "sizes beyond 2^48 bytes / 2^20 clusters are hypotheses (unreachable at run time)",
+        ],
+    },
+    "C12": {
+        "theorems": "JubakoModel.Theorems.C12",
+        "harness": "c12",
+        "profiles": ["debug"],
+        "rule": "one case = one history of 1..6 (quick) / 1..20 (thorough) tools::set_location calls on a created container: manifest standalone (NoConcat), inside a container pack (OneFile/TwoFiles, 0 or 2 extra content packs) or inside a re-concatenated container (manifest at another offset); targets = listed packs and unknown uuids; locations of 0..213 bytes incl. the 212/213 boundary and multi-byte UTF-8; after every step: result, file diff confined to bytes [38,256) of the target pack-info block, manifest re-opened, all pack infos compared, manifest check, (one-file) full logical dump; the Lean setLocationAt applied to the same bytes must give the identical file; non-trivial = at least one step rewrote a listed pack",
+        "assumptions": [
+            "locations longer than 213 bytes are outside the property (the library panics on them: assert in PString serialisation)",
+            "UTF-8 validity of locations is not modelled (byte strings); the harness only writes valid UTF-8",
+        ],
+    },
+    "C16": {
+        "theorems": "JubakoModel.Theorems.C16",
+        "harness": "c01",
+        "sig_include": "^c16-|^address|^stored-count|^create|^codec-oracle|^framing|^process-died",
+        "profiles": ["debug"],
+        "rule": "same generator as C01 (insertion sequences mixing hints yes/no/detect x compression none/lz4/lzma/zstd x dedup adder on/off x packagings); per stored content the independent framing decoder reports the compression byte of its cluster and, for type 0, whether the bytes sit verbatim at the blob position; addresses returned by CachedContentAdder are compared with first-occurrence numbering; the Lean decoder reports the same compression bytes (cp.decode) and the Lean creator model reproduces the file (cp.encode); non-trivial = at least one content; distinct = distinct (config, contents) fingerprint",
+        "assumptions": [
+            "the decision for hint Detect is not part of the property; it is read out of the file",
+            "dedup identity is blake3 equality in the code; the harness uses byte equality (a blake3 collision would show up as an address mismatch)",
+        ],
+    },
 }
